@@ -73,10 +73,18 @@ def template(t, n):
         return [raw([y.intervene([a, d])], [z]), raw([y.intervene([b, c])], [z])]
     if t == 15:  # the same for unconditioned factors and for a parent; one single-subscript factor
         return [raw([y.intervene([a, d])]), raw([y.intervene([b, c])]), raw([z], [y.intervene([d, a])])]
+    if t == 16:  # two sums over the same body with different ranges (their sort keys must not tie)
+        return [Sum(raw([a], [b, c]), fs([b])), Sum(raw([a], [b, c]), fs([c])), raw([d])]
+    if t == 17:  # a factor that canonicalises to a product itself (a fraction over One)
+        return [raw([a]), Fraction(Product((raw([b]), raw([c], [d]))), One())]
+    if t == 18:  # numerator and denominator share a factor that is spelled differently before canonicalisation
+        return [Fraction(Product((raw([b, a]), raw([c]))), raw([a, b])), raw([d])]
+    if t == 19:  # the same with the shared factor under a Sum and with permuted parents
+        return [Fraction(Product((Sum(raw([a], [c, b]), fs([c])), raw([d]))), Sum(raw([a], [b, c]), fs([c]))), raw([b])]
     raise ValueError(t)
 
 
-N_TEMPLATES = 16
+N_TEMPLATES = 20
 PERMS4 = list(itt.permutations(range(4)))
 
 
@@ -119,7 +127,7 @@ def ordering(o, n):
 
 def idempotent(t: int, m: int, o: int) -> bool:
     """
-    pre: 0 <= t < 16 and 0 <= m < 24 and 0 <= o < 3
+    pre: 0 <= t < 20 and 0 <= m < 24 and 0 <= o < 3
     post: __return__
     """
     n = NAME_PERMS[m]
@@ -132,7 +140,7 @@ def idempotent(t: int, m: int, o: int) -> bool:
 
 def presentation_invariant(t: int, m: int, o: int, p: int, nest: int, rev: int) -> bool:
     """
-    pre: 0 <= t < 16 and 0 <= m < 24 and 0 <= o < 3 and 0 <= p < 6 and 0 <= nest < 3 and 0 <= rev < 2
+    pre: 0 <= t < 20 and 0 <= m < 24 and 0 <= o < 3 and 0 <= p < 6 and 0 <= nest < 3 and 0 <= rev < 2
     post: __return__
     """
     n = NAME_PERMS[m]
@@ -145,7 +153,7 @@ def presentation_invariant(t: int, m: int, o: int, p: int, nest: int, rev: int) 
 
 def keys_total(t: int, u: int, m: int) -> bool:
     """
-    pre: 0 <= t < 16 and 0 <= u < 16 and 0 <= m < 24
+    pre: 0 <= t < 20 and 0 <= u < 20 and 0 <= m < 24
     post: __return__
     """
     n = NAME_PERMS[m]
@@ -161,7 +169,7 @@ def keys_total(t: int, u: int, m: int) -> bool:
 
 def reach_twin(t: int, m: int) -> bool:
     """
-    pre: 0 <= t < 16 and 0 <= m < 24
+    pre: 0 <= t < 20 and 0 <= m < 24
     post: __return__
     """
     n = NAME_PERMS[m]
